@@ -56,6 +56,11 @@ def _gen_slicer(S, n_rows):
     sp = {"kind": kind, "min_n_points": S.pick([10, 20, 30, 50]), "min_n_intervals": 2 if k <= 4 else S.pick([2, 3])}
     if kind == "width":
         sp["n_target"] = k
+        if S.chance(0.4):
+            # a 'round' width (not exactly representable in binary) - together with rounded data
+            # many rows tie with interval limits
+            sp["width"] = S.pick([0.2, 0.3, 0.4, 0.6, 0.7, 0.8, 0.9, 1.1, 1.2])
+            sp["nice"] = True
         sp["reference"] = S.pick(["center", "left", "right", "median", "mean"])
         sp["right_open"] = S.chance(0.6)
     elif kind == "number":
@@ -96,6 +101,12 @@ def generate(prop, seed, tier):
                 t = d["truth"][p]
                 b = core.r6(S.uni(0.01, 0.06) * t)
                 d["deps"][p] = {"shape": shape, "slope": b, "bounds": S.pick([None, "pos"]) if shape == "poly1" else "pos3"}
+        if cond[i] is not None and len(d["deps"]) >= 2 and S.chance(0.3):
+            # chained dependence functions: one parameter's function uses the other one's
+            names_ = list(d["deps"])
+            a_, b_ = (names_[0], names_[1]) if S.chance(0.6) else (names_[1], names_[0])  # a_ depends on b_
+            d["deps"][b_] = {"shape": "poly1", "slope": d["deps"][b_]["slope"], "bounds": None}
+            d["deps"][a_] = {"shape": "scaled1", "slope": d["deps"][a_]["slope"], "bounds": None, "cond": b_}
         dims.append(d)
     n_steps = S.wpick([(1, 3), (2, 4), (3, 3), (4, 1)])
     steps = []
@@ -120,13 +131,16 @@ def generate(prop, seed, tier):
             steps[k]["twin_perm"] = None
             steps[-1]["twin_perm"] = S.sub("perm", 99)
     slicers = [_gen_slicer(S, min(s["n"] for s in steps)) for _ in range(n_dim)]
+    if any(sp.get("nice") for sp in slicers) and S.chance(0.8):
+        for st in steps:
+            st["round"] = 0.1
     for d in dims:
         if d["cond_on"] is None:
             continue
         sp = slicers[d["cond_on"]]
         k_target = sp.get("n_target") or sp.get("n_intervals") or (min(s["n"] for s in steps) // sp["n_points"])
         for p, dd in d["deps"].items():
-            if dd["shape"] != "poly1" and k_target < 6:
+            if dd["shape"] not in ("poly1", "scaled1") and k_target < 6:
                 d["deps"][p] = {"shape": "poly1", "slope": dd["slope"], "bounds": None}
     return {"engine": NAME, "property": prop, "seed": seed, "cond": cond, "dims": dims, "slicers": slicers, "steps": steps}
 
@@ -214,9 +228,23 @@ def make_template(d):
     return cls(**{"f_" + p: v for p, v in fixed.items()})
 
 
-def make_dep(dd):
+def make_deps(deps):
+    """all dependence functions of one conditional dimension (chained ones after their conditioner)"""
+    out = {}
+    for p, dd in deps.items():
+        if "cond" not in dd:
+            out[p] = make_dep(dd)
+    for p, dd in deps.items():
+        if "cond" in dd:
+            out[p] = make_dep(dd, out[dd["cond"]])
+    return {p: out[p] for p in deps}
+
+
+def make_dep(dd, conditioner=None):
     from virocon import DependenceFunction
 
+    if dd["shape"] == "scaled1":
+        return DependenceFunction(make_func("scaled1", [1.0, 1.0]), d_of_x=conditioner)
     shape = dd["shape"]
     nown = SHAPES[shape][1]
     bounds = None
@@ -238,7 +266,7 @@ def build_model(scen, width_hint):
         desc = {"distribution": make_template(d), "intervals": make_slicer(scen["slicers"][i], width_hint[i])}
         if d["cond_on"] is not None:
             desc["conditional_on"] = d["cond_on"]
-            desc["parameters"] = {p: make_dep(dd) for p, dd in d["deps"].items()}
+            desc["parameters"] = make_deps(d["deps"])
         descs.append(desc)
     return GlobalHierarchicalModel(descs)
 
@@ -315,8 +343,14 @@ def check_model(run, scen, model, D, pre_params, step, tag):
         cj = D[:, j]
         spj = scen["slicers"][j]
         for k, (lo, hi) in enumerate(bounds):
-            must = (cj > lo + eta) & (cj < hi - eta)
-            may = (cj >= lo - eta) & (cj <= hi + eta)
+            if spj["kind"] == "width":
+                # WidthOfIntervalSlicer documents [a, b) / (a, b] and reports a and b: a row belongs to
+                # the reported interval or it does not - no tolerance
+                must = ((cj >= lo) & (cj < hi)) if spj["right_open"] else ((cj > lo) & (cj <= hi))
+                may = must
+            else:
+                must = (cj > lo + eta) & (cj < hi - eta)
+                may = (cj >= lo - eta) & (cj <= hi + eta)
             got = Counter(np.asarray(ivs[k], dtype=float).tolist())
             c_must = Counter(D[must, i].tolist())
             c_may = Counter(D[may, i].tolist())
@@ -364,15 +398,22 @@ def check_model(run, scen, model, D, pre_params, step, tag):
                 run.violate("O2-standalone-equality", f"conditional/{d['template']}/{method.lower()}", {"dim": i, "interval": k, "model": dict(dist.parameters_per_interval[k]), "standalone": dict(ref.parameters), "method": method, "weights": weights, "step": step, "tag": tag})
                 return
         # O3: dependence functions fitted to exactly the (reference value, estimate) pairs
+        refs = make_deps(d["deps"])
+        ref_failed = set()
+        for p in sorted(d["deps"], key=lambda q: "cond" in d["deps"][q]):  # conditioners first
+            try:
+                refs[p].fit(cvals, [float(par[p]) for par in dist.parameters_per_interval])
+            except Exception:
+                ref_failed.add(p)
         for p, dd in d["deps"].items():
             dep = dist.conditional_parameters[p]
             y = [float(par[p]) for par in dist.parameters_per_interval]
-            ref = make_dep(dd)
-            try:
-                ref.fit(cvals, y)
-            except Exception:
+            ref = refs[p]
+            if p in ref_failed or dd.get("cond") in ref_failed:
                 run.count("o3_reference_fit_failed")
                 continue
+            if "cond" in dd:
+                run.count("probe:chained-dependence-checked")
             with np.errstate(all="ignore"):
                 a = np.asarray(dep(cvals), dtype=float)
                 b = np.asarray(ref(cvals), dtype=float)
@@ -382,7 +423,7 @@ def check_model(run, scen, model, D, pre_params, step, tag):
                 continue
             dev = float(np.max(np.abs(a - b))) / sc
             if dev > 1e-3:
-                run.violate("O3-dependence-fit-on-pairs", f"{dd['shape']}", {"dim": i, "param": p, "max_rel_dev": dev, "model": [float(v) for v in dep.parameters.values()], "standalone": [float(v) for v in ref.parameters.values()], "n_pairs": len(y), "step": step, "tag": tag})
+                run.violate("O3-dependence-fit-on-pairs", f"{dd['shape']}" + ("/refit" if tag != "first" else ""), {"dim": i, "param": p, "max_rel_dev": dev, "model": [float(v) for v in dep.parameters.values()], "standalone": [float(v) for v in ref.parameters.values()], "n_pairs": len(y), "step": step, "tag": tag})
                 return
 
 
@@ -428,7 +469,7 @@ def check_twins(run, scen, A, B, step):
                     # linear shapes: stable solution; nonlinear 3-parameter shapes on a handful of
                     # pairs amplify the 1e-16 summation-order noise of the estimates (seen: exp3 with
                     # b = 1.3e9, c = -8.1 vs b = 1.2e9, c = -8.07), so only gross disagreement counts
-                    tol = 1e-6 if d["deps"][p]["shape"] == "poly1" else 1e-3
+                    tol = 1e-6 if d["deps"][p]["shape"] in ("poly1", "scaled1") else 1e-3
                     if float(np.max(np.abs(a - b))) / sc > tol:
                         run.violate("O4-row-order-invariance", f"dependence/{d['deps'][p]['shape']}", {"dim": i, "param": p, "a": [float(v) for v in da.conditional_parameters[p].parameters.values()], "b": [float(v) for v in db.conditional_parameters[p].parameters.values()], "step": step})
                         return
@@ -465,7 +506,7 @@ def _all_finite(model, scen):
 def execute(prop, scen):
     run = core.Run(prop, scen)
     run.signature = core.digest(
-        [scen["cond"], [(d["template"], d["method"], d["weights"], sorted((p, v["shape"], v["bounds"]) for p, v in d["deps"].items())) for d in scen["dims"]], [(s["kind"], s["reference"]) for s in scen["slicers"]], [(s["order"], s["round"], s["twin_perm"] is not None, (s["fault"] or {}).get("kind")) for s in scen["steps"]]]
+        [scen["cond"], [(d["template"], d["method"], d["weights"], sorted((p, v["shape"], v["bounds"], v.get("cond")) for p, v in d["deps"].items())) for d in scen["dims"]], [(s["kind"], s["reference"]) for s in scen["slicers"]], [(s["order"], s["round"], s["twin_perm"] is not None, (s["fault"] or {}).get("kind")) for s in scen["steps"]]]
     )
     with seams.recorded_warnings():
         D0 = make_data(scen, {**scen["steps"][0], "fault": None})
@@ -512,7 +553,7 @@ def execute(prop, scen):
                     continue
             if excA is not None or excB is not None:
                 exc = excA or excB
-                all_linear = all(dd["shape"] == "poly1" for d in scen["dims"] for dd in d["deps"].values())
+                all_linear = all(dd["shape"] in ("poly1", "scaled1") for d in scen["dims"] for dd in d["deps"].values())
                 ties_ppi = st["round"] is not None and any(sp["kind"] == "points" for sp in scen["slicers"])
                 if (excA is None) != (excB is None) and st["twin_perm"] is not None and all_linear and not ties_ppi:
                     run.violate("O4-row-order-invariance", "fit-raises-for-one-row-order", {"step": si, "excA": repr(excA)[:200], "excB": repr(excB)[:200]})
@@ -582,7 +623,7 @@ def shrink_candidates(prop, scen):
         yield c
     for i, d in enumerate(scen["dims"]):
         for p, dd in d["deps"].items():
-            if dd["shape"] != "poly1" or dd["bounds"] is not None:
+            if (dd["shape"] != "poly1" or dd["bounds"] is not None) and not any(o.get("cond") == p for o in d["deps"].values()):
                 c = copy.deepcopy(scen)
                 c["dims"][i]["deps"][p] = {"shape": "poly1", "slope": dd["slope"], "bounds": None}
                 yield c
@@ -603,5 +644,5 @@ def describe(prop):
             "rows within 1e-9 x scale of an interval edge may fall on either side (edge conventions are C10's subject)",
             "with rounded data (ties) and PointsPerIntervalSlicer, rows tying with a chunk edge may swap sides between row orders",
         ],
-        "probes": ["refit", "twin-permuted-step", "clean-fit-after-failed-fit", "rejected-data-accepted"],
+        "probes": ["refit", "twin-permuted-step", "clean-fit-after-failed-fit", "rejected-data-accepted", "chained-dependence-checked"],
     }
